@@ -89,7 +89,10 @@ type fakeIDP struct {
 	jwksGet       func() jwk.Set
 	jwksRefresh   func() jwk.Set
 	jwksRefreshes int
-	badSeq        int
+	// shape of the code-grant token response (C10 login shapes): no refresh_token member; expires_in absent / zero / negative / huge
+	loginNoRT      bool
+	loginExpiresIn string
+	badSeq         int
 }
 
 type rtInfo struct {
@@ -264,6 +267,19 @@ func (p *fakeIDP) token(w http.ResponseWriter, r *http.Request) {
 		p.validRT[rt] = &rtInfo{sid: req.Sid, acr: req.Acr, at: n}
 		resp := map[string]any{"access_token": fmt.Sprintf("at-%s-%d", p.salt, n), "token_type": "Bearer",
 			"refresh_token": rt, "expires_in": p.tau}
+		if p.loginNoRT {
+			delete(resp, "refresh_token")
+		}
+		switch p.loginExpiresIn {
+		case "absent":
+			delete(resp, "expires_in")
+		case "zero":
+			resp["expires_in"] = 0
+		case "negative":
+			resp["expires_in"] = -5
+		case "huge":
+			resp["expires_in"] = int64(1) << 40
+		}
 		if p.rawIDToken != nil {
 			if v, inc := p.rawIDToken(req); inc {
 				resp["id_token"] = v
